@@ -218,6 +218,13 @@ def run(ctx):  # noqa: C901
             okm = ("/", ("c", 1), ("n", "dim")) in t[2] and ("n", "inner_product") in t[2]
     sq = any(isinstance(n, ast.Assign) and isinstance(n.targets[0], ast.Name) and n.targets[0].id == "inner_product" and Nb(n.value)[0] == "**" and Nb(n.value)[2] == ("c", 2) and
              "numpy.abs" in repr(Nb(n.value)) and ("numpy.vdot" in repr(Nb(n.value)) or ("numpy.trace" in repr(Nb(n.value)) and "'dag'" in repr(Nb(n.value)))) for n in walk_no_nested(mub.node))
+    # coverage: every pair of distinct bases (i < j), every vector of the first (k) and of the second (l)
+    its = [Nb(lp.iter) for lp in walk_no_nested(mub.node) if isinstance(lp, ast.For)]
+    R = lambda *a: ("call", "builtins.range", tuple(a), ())  # noqa: E731
+    lvs = [lp.target.id for lp in walk_no_nested(mub.node) if isinstance(lp, ast.For) and isinstance(lp.target, ast.Name)]
+    okcov = len(its) == 4 and its[0] == R(("n", "num_bases")) and len(lvs) == 4 and its[1] == R(("+", (("c", 1), ("n", lvs[0]))), ("n", "num_bases")) and its[2] == R(("n", "dim")) and its[3] == R(("n", "dim"))
+    ctx.ob("R-ENUM", mub, "all pairs of distinct bases and all pairs of their vectors are compared", okcov,
+           "i < j over the bases, k and l over range(dim)" if okcov else f"loops range over {[show(t)[:40] for t in its]}: some basis or vector is never compared")
     ctx.ob("R-PRED", mub, "unbiased == |<a|b>|^2 ~ 1/dim for vectors of different bases", okm and sq, "|vdot|^2 compared with 1/dim" if okm and sq else "the unbiasedness condition changed")
     loops = [Nb(n.iter) for n in walk_no_nested(mub.node) if isinstance(n, ast.For)]
     okl = ("call", "builtins.range", (("+", (("c", 1), ("n", "i"))), ("n", "num_bases")), ()) in loops
